@@ -93,9 +93,12 @@ def context_of(item):
         return ()
     ops = "+".join(sorted(o[0] for o in item.get("ops", ()))) or "-"
     st = item.get("style")
-    cfg = item.get("id", "").split("%cfg:")[1].split("=")[0].split("~")[0] if "%cfg:" in item.get("id", "") else ""
+    raw = item.get("id", "").split("%cfg:")[1] if "%cfg:" in item.get("id", "") else ""
+    cfg = raw.split("=")[0].split("~")[0]
     if cfg:
         cfg = cfg.split(".", 1)[1] if "." in cfg else cfg
+        if cfg == "skip_phase":
+            cfg = raw.split("#")[0]  # which phase is skipped is part of the context
     return ("@" + ops + ("%" + st if st else "") + (" cfg:" + cfg if cfg else ""),)
 
 
